@@ -156,7 +156,65 @@ func genPlain(t *rapid.T) lenCase {
 	return lenCase{M: m, Compress: rapid.Bool().Draw(t, "compress"), Plain: true}
 }
 
+// records whose own fields straddle the 16384-octet pointer limit: a filler puts the start of a
+// name-bearing record of a generated type at 16384-k (k in 0..48); the names it introduces are used
+// again by later records, so that every "may this name become a compression target?" decision of the
+// length prediction is compared with the packer's
+var nameTypes = []uint16{wm.TNS, wm.TCNAME, wm.TSOA, wm.TMX, wm.TPTR, wm.TMINFO, wm.TSRV, wm.TDNAME, wm.TRP, wm.TAFSDB, wm.TKX, wm.TNAPTR,
+	wm.TNSEC, wm.TNXT, wm.TRRSIG, wm.TSIG, wm.THIP, wm.TSVCB, wm.THTTPS, wm.TIPSECKEY, wm.TAMTRELAY, wm.TTALINK, wm.TPX, wm.TLP, wm.TRT, wm.TNSAPPTR, wm.TTKEY, wm.TTSIG, wm.TMB, wm.TMG, wm.TMR, wm.TMD, wm.TMF}
+
+func genBoundary(t *rapid.T) lenCase {
+	plainNames := func(t *rapid.T) wm.Name {
+		return gen.Name(t, gen.NameOpts{Plain: true, MaxLabs: 3, MaxLabel: 8})
+	}
+	o := &gen.Opts{Plain: true, NameGen: plainNames}
+	typ := rapid.SampledFrom(nameTypes).Draw(t, "type")
+	rec := gen.RecOfType(t, typ, o)
+	if rec.Type == wm.TIPSECKEY || rec.Type == wm.TAMTRELAY {
+		// make the gateway a host name
+		for i := range rec.Fields {
+			if rec.Fields[i].K == wm.U8 && i == 1 {
+				rec.Fields[i].U = rec.Fields[i].U&0x80 | 3
+			}
+			if rec.Fields[i].K == wm.GW {
+				rec.Fields[i] = wm.Field{K: wm.GW, U: 3, N: plainNames(t)}
+			}
+		}
+	}
+	m := wm.Msg{ID: uint16(gen.UintB(t, 16)), Flags: wm.FlagQR, Q: []wm.Question{{Name: plainNames(t), Type: 1, Class: 1}}}
+	pre := 12 + m.Q[0].Name.WireLen() + 4
+	k := rapid.IntRange(0, 48).Draw(t, "k")
+	fillerHdr := wm.Name{[]byte("fill")}.WireLen() + 10
+	n := 16384 - k - pre - fillerHdr
+	m.An = []wm.Rec{gen.PlainFiller(n), rec}
+	// later records reuse the names the boundary record introduced (owner and RDATA names)
+	var names []wm.Name
+	names = append(names, rec.Name)
+	for _, f := range rec.Fields {
+		if len(f.N) > 0 {
+			names = append(names, f.N)
+		}
+		names = append(names, f.NL...)
+	}
+	for i := rapid.IntRange(1, 3).Draw(t, "nlater"); i > 0; i-- {
+		base := names[rapid.IntRange(0, len(names)-1).Draw(t, "which")]
+		owner := base.Clone()
+		if rapid.Bool().Draw(t, "child") {
+			owner = append(wm.Name{[]byte("c")}, owner...)
+		}
+		later := wm.Rec{Name: owner, Type: wm.TNS, Class: 1, TTL: 1, Fields: []wm.Field{{K: wm.NameC, N: names[rapid.IntRange(0, len(names)-1).Draw(t, "target")].Clone()}}}
+		if !later.Name.Valid() {
+			later.Name = base.Clone()
+		}
+		m.Ns = append(m.Ns, later)
+	}
+	_, plain := map[uint16]bool{wm.TNS: true, wm.TCNAME: true, wm.TSOA: true, wm.TMX: true, wm.TPTR: true, wm.TMINFO: true, wm.TSRV: true, wm.TDNAME: true,
+		wm.TRP: true, wm.TAFSDB: true, wm.TKX: true, wm.TNAPTR: true}[typ]
+	return lenCase{M: m, Compress: rapid.IntRange(0, 3).Draw(t, "compress") != 0, Plain: plain}
+}
+
 func init() {
+	pbt.Register(pbt.Sub[lenCase]{Name: "len-at-16384", Weight: 6, Gen: genBoundary, Check: checkLen})
 	pbt.Register(pbt.Sub[lenCase]{Name: "len-any", Weight: 10, Gen: genAny, Check: checkLen})
 	pbt.Register(pbt.Sub[lenCase]{Name: "len-plain-exact", Weight: 10, Gen: genPlain, Check: checkLen})
 }
